@@ -75,15 +75,16 @@ def configs(tier, seed):
     cfgs = [
         dict(name="units", T=[a_f, a_i, a_d, gx_c, px], M=[m_f2, m_f, m_i, m_s], SL=[], HU=[u1, u2, "s"],
              bounds=B(3 if th else 2, 2 if th else 1, 1, 1, kinds=["inj"]), modes=[]),
-        dict(name="imports", T=[a_i, a_d, gx_c, gx_i, gkz, gy, gqx, p_, px], M=[m_f2, m_i0, m_b, m_t], SL=[], HU=[],
-             bounds=B(4 if th else 3, 1, 1, 1, kinds=["imp"]), modes=[]),
+        dict(name="imports", T=[a_i, a_d, gx_c, gx_i, gkz, gy, gqx, p_, px] if th else [a_d, gx_c, gkz, gy, gqx, p_, px],
+             M=[m_f2, m_i0, m_b, m_t], SL=[], HU=[],
+             bounds=B(4 if th else 3, 1, 1, 1, kinds=["imp"], fewhosts=not th), modes=[]),
         dict(name="modes", T=[a_f, a_d, gx_i, gy] + ([gx_c, gkz] if th else []), M=[m_f2, m_i0, m_t], SL=slices[8:9], HU=[u2],
              bounds=B(2, 1, 1, 1, fewhosts=True), modes=["base", "remote"]),
         dict(name="arrays", T=[v1, v1u, w2, gm, gs, ge, t2], M=[ma1, ma2, m_t, m_i0, ma3], SL=slices, HU=[u1],
              bounds=B(3 if th else 2, 1, 1, 1, fewhosts=True), modes=["remote"] if th else []),
         dict(name="chain", T=[a_f, gx_i] + ([w2, a_d] if th else []), M=[m_f2, m_i0] + ([ma2] if th else []),
-             SL=slices[3:4] + slices[5:6] if th else [], HU=[u2],
-             bounds=B(2, 1, 2, 1, fewhosts=True), modes=["base", "remote"]),
+             SL=slices[3:4] + slices[5:6] if th else [], HU=[u2] if th else [],
+             bounds=B(2, 1 if th else 0, 2, 1, fewhosts=True), modes=["base", "remote"]),
     ]
     return cfgs
 
@@ -194,3 +195,112 @@ def clause_of(rec, res):
     if o == "rej":
         return "a valid reference is accepted", "ok->rej"
     return "hosts / imported nodes carry the referenced node's current value, the unit rules and unchanged type", "ok->ok"
+
+
+# ----------------------------------------------------------------------------- the check
+
+def slim(rec):
+    return {k: rec[k] for k in ("mode", "prog", "ideal", "mach", "tags", "snap", "_style", "_cfg") if k in rec}
+
+
+def judge(V, rec, res, stats):
+    tags = sorted(rec["tags"])
+    if rec["ideal"]["unspec"]:
+        V.unspecified()
+        return
+    failed = (not res["ok_i"]) or res["unchanged"] is False
+    if not failed:
+        V.ok()
+        if not res["ok_m"]:
+            V.drift(json.dumps({"texts": res["detail"]["texts"], "machine": rec["mach"]["st"],
+                                "observed": res["detail"]["observed"]["st"]})[:300])
+        return
+    clause, failure = clause_of(rec, res)
+    predicted = res["ok_m"] and res["unchanged"] is not False
+    # a known finding explains a failure only if the machine transcription predicted exactly this observation
+    how = V.fail(slim(rec), rec["ideal"], res["detail"]["observed"], clause,
+                 tags=tags if predicted else ["unpredicted"], failure=failure)
+    stats[(how, failure, tuple(t for t in tags if "." in t))] += 1
+
+
+def run(replay=None):
+    import collections
+    V = C.Verdicts(PID, "model_checking")
+    if replay:
+        body = json.load(open(replay))
+        rec = body["scenario"]
+        _WD[0] = C.workdir(PID + "-replay")
+        res = replay_record(rec)
+        failed = (not res["ok_i"]) or res["unchanged"] is False
+        print(f"replay {replay}: ideal={'ok' if not failed else 'CONTRADICTED'} machine={'ok' if res['ok_m'] else 'differs'}")
+        if failed:
+            print(json.dumps(res.get("detail"), default=str)[:1500])
+            print(f"VIOLATION property={PID} replay={replay}")
+        C.cleanup(PID + "-replay")
+        return 1 if failed else 0
+    wd = C.workdir(PID)
+    _WD[0] = os.path.join(wd, "cases")
+    tier, seed = C.tier(), C.seed()
+    cfgs = configs(tier, seed)
+    recs, states, trans, per_cfg = [], 0, 0, {}
+    for cf in cfgs:
+        r = run_tlc(wd, cf)
+        if r.violated:
+            raise C.MachineryError(f"DipRefs ({cf['name']}): invariant {r.violated} violated - the machine transcription "
+                                   f"disagrees with the ideal outside the named deviations:\n{r.cex[:1500]}")
+        for x in r.records:
+            x["_cfg"] = cf["name"]
+        recs += r.records
+        states += r.distinct
+        trans += r.generated
+        per_cfg[cf["name"]] = len(r.records)
+    # sensitivity of BaseUnchanged: the parse that does not copy the base environment must be caught by TLC
+    cf0 = dict(cfgs[2], bounds=dict(cfgs[2]["bounds"], ref=1, late=0))
+    r0 = run_tlc(wd, cf0, copy_on_parse=False, emit=False)
+    for i, x in enumerate(recs):
+        x["_style"] = (i + 7 * seed) % 12
+    results = C.pmap(replay_record, recs)
+    stats = collections.Counter()
+    devs = collections.Counter()
+    nontrivial = 0
+    for rec, res in zip(recs, results):
+        judge(V, rec, res, stats)
+        if not rec["agree"] and not rec["ideal"]["unspec"]:
+            devs[" ".join(sorted(t for t in rec["tags"] if "." in t))] += 1
+        if rec["ideal"]["st"] == "ok" and len(rec["ideal"]["data"]) > sum(1 for ln in rec["prog"] if ln["k"] == "def"):
+            nontrivial += 1
+    samples = []
+    for name in per_cfg:
+        for rec in recs:
+            if rec["_cfg"] == name and rec["ideal"]["st"] == "ok" and rec["agree"] and len(rec["prog"]) >= 4:
+                first, second = A.split_program(rec)
+                samples.append({"cfg": name, "mode": rec["mode"],
+                                "texts": [A.render_lines(x, rec["_style"]) for x in (first, second) if x],
+                                "expected": A.expected_data(rec["ideal"]["data"])})
+                break
+    V.cov.update({
+        "states": states + r0.distinct, "transitions": trans + r0.generated,
+        "traces_validated_against_impl": len(recs), "evaluations": len(recs),
+        "distinct_nontrivial": nontrivial,
+        "rule": "every program TLC reaches within the bounds of the configurations " + json.dumps(per_cfg) +
+                " (tree <= 4 nodes of a template menu, <= 2 modifications, optional switch to base environment / remote "
+                "source, <= 2 reference lines: injections with slices and host units as definition or modification, "
+                "imports {?p.*} {?p} {?*} inline or indented, <= 1 later modification of source or host), each rendered "
+                "to DIP text(s), parsed by the real DIP and compared with the ideal's env.data(TUPLE) at rel 1e-9; "
+                "non-trivial = accepted programs whose references created at least one node",
+        "samples": samples[:5],
+        "exhaustive": True,
+        "machine_vs_ideal_deviations": dict(devs),
+        "failures_by_kind": {f"{h}|{f}|{' '.join(t)}": n for (h, f, t), n in sorted(stats.items(), key=lambda kv: -kv[1])[:40]},
+        "spec_sensitivity_without_copy": r0.violated or "none",
+    })
+    if r0.violated != "BaseUnchanged":
+        V.notes.append("sensitivity run without copy.deepcopy did not violate BaseUnchanged: " + str(r0.violated))
+    V.assumptions += [
+        "hierarchy, literal casting and plain modification are taken as in C13/C14; zero / empty-string literals are not generated",
+        "not decided (replayed, counted unspecified): a unit given to a unitless node, conversion of whole arrays, "
+        "non-integral values in int nodes, an import onto an already existing name, a reference to a declared node without value",
+        "unit table restricted to none, m, cm, km, s; values are decimal (n * 10^e), so all conversions are exact in the spec",
+    ]
+    C.cleanup(PID)
+    return V.finish()
